@@ -147,6 +147,9 @@ func checkC09(c *Ctx) {
 
 	// (3) permission filters in the note handler
 	c.checkNotePermissions(handler)
+	c.checkRemovedSenderDegraded(handler)
+	c.checkOfflineInfoSkipsOrigin()
+	c.checkIntersect()
 
 	// (4) fan-out
 	fo := c.checkFanoutCommon("C09.4")
